@@ -11,7 +11,7 @@ PROPERTY = 'C04'
 LEVEL = 'exploration'
 RULE = ('2-CA space enumerated over the grid {NAME order} x {AAC on/off each} x {preferred addresses equal, adjacent, distinct} x {immediate range, '
         'veto range} x {second claim -300, 0, +10, +125, +240, +251, +260, +1000 ms relative to the first} x {latency (0,5ms], half zero, all zero}; '
-        'plus seeded random 3-4-CA runs (NAMEs differing in high/middle/low fields or only in the AAC bit, claim delays 1/100/500 ms); every run '
+        'plus seeded random 3-4-CA runs (NAMEs differing in high/middle/low fields or only in the AAC bit, claim delays 1/100/500 ms), a fifth of all cases with both threads of every stack (job thread = claim timers, receive thread = handling of the other claims) pre-empted at random source lines for 0.2..3 ms, plus veto_race cases: a second claim within +-0.6 ms of the end of the first CA\'s veto window with dense pre-emption (every ~7th line) of both threads around that instant; every run '
         'lasts 20 virtual seconds; oracle at the end (bus silent >= 2 s): every CA NORMAL or CANNOT_CLAIM, operational addresses pairwise distinct, '
         'for every address claimed on the bus by >= 2 CAs the operational holder is the lowest NAME among them, a non-AAC loser is CANNOT_CLAIM and '
         'sent a claim from SA 254 with its NAME after the loss, an AAC loser is NORMAL on another address it claimed; non-trivial = >= 1 address '
@@ -19,7 +19,8 @@ RULE = ('2-CA space enumerated over the grid {NAME order} x {AAC on/off each} x 
 ASSUMPTIONS = ['addresses are chosen so that every possible loss leaves room below 247 (as the property states)',
                'zero latency = the reply is handled re-entrantly inside the sender\'s send call']
 MIN_OBS = {'contested_addresses': {'quick': 600, 'thorough': 10000}, 'cannot_claim_checked': {'quick': 150, 'thorough': 3000},
-           'reclaims_checked': {'quick': 150, 'thorough': 3000}, 'zero_latency_cases': {'quick': 300, 'thorough': 5000}}
+           'reclaims_checked': {'quick': 150, 'thorough': 3000}, 'zero_latency_cases': {'quick': 300, 'thorough': 5000},
+           'preempted_cases': {'quick': 500, 'thorough': 6000}, 'preemption_holds': {'quick': 15000, 'thorough': 200000}}
 
 NAMES = [
     C.name_value(identity_number=5, manufacturer_code=100, function=10, industry_group=1),
@@ -73,6 +74,13 @@ def cases(tier, seed):
         claims = [1.0 + rng.choice(OFFSETS + [0.0, 0.0, 0.002, 0.5, 2.0]) for _ in range(n)]
         out.append(dict(kind='rand', names=names, aac=aac, addrs=addrs, claims=claims, delays=[rng.choice([0.001, 0.1, 0.5]) for _ in range(n)],
                         lat=rng.choice(LATS + ['lat']), seed=rng.randrange(1 << 30)))
+    # the end of the veto window under pre-emption: a lower (or higher) NAME claims the address within +-0.6 ms of the instant the first CA's
+    # veto timer expires, while both of its threads are pre-empted at every few source lines around that instant
+    for i in range(300 if tier == 'quick' else 4000):
+        nm = rng.sample(NAMES, 2)
+        out.append(dict(kind='veto_race', names=nm, aac=[rng.randrange(2), rng.randrange(2)], addrs=[150, 150],
+                        claims=[1.0, 1.0 + 0.25 + rng.uniform(-0.0006, 0.0008)], delays=[0.1, 0.001], lat=rng.choice(['lat', 'lat', 'half']),
+                        seed=rng.randrange(1 << 30)))
     if tier == 'thorough':
         # 3-CA grid on one address
         for perm in itertools.permutations(range(3)):
@@ -95,8 +103,26 @@ def run_case(case):
     viol = M.Violations()
     cas = []
     names = []
+    # in a fifth of the cases both threads of every stack are pre-empted at random source lines (job thread: the claim timers; receive thread:
+    # the handling of the other CAs' claims) for 0.2..3 ms
+    race = case['kind'] == 'veto_race'
+    pre = race or random.Random(case['seed'] ^ 0xC04).random() < 0.2
+    holds = [0]
+    pre_on = [not race]
+    if race:
+        # dense pre-emption, but only around the end of the first CA's veto window
+        sim.at(1.2492, lambda: pre_on.__setitem__(0, True))
+        sim.at(1.2525, lambda: pre_on.__setitem__(0, False))
     for i in range(n):
-        node = W.stack('N%d' % i)
+        if pre:
+            from vt import preempt as PRE
+            pp = 0.15 if race else 0.01
+            hh = (0.0002, 0.0005, 0.001) if race else (0.0002, 0.001, 0.003)
+            sim.trace_hook = PRE.random_tracer(sim, case['seed'] ^ (0x40 + i), p=pp, holds=hh, counter=holds, max_holds=400, on=pre_on)
+            node = W.stack('N%d' % i, rx_thread=True, rx_trace=PRE.random_tracer(sim, case['seed'] ^ (0x80 + i), p=pp, holds=hh, counter=holds, max_holds=400, on=pre_on))
+            sim.trace_hook = None
+        else:
+            node = W.stack('N%d' % i)
         nv = (case['names'][i] & ~(1 << 63)) | (case['aac'][i] << 63)
         names.append(nv)
         ca = W.ca(node, case['addrs'][i], name_value=nv, bypass=False)
@@ -106,7 +132,7 @@ def run_case(case):
     W.run(20.0)
     j = W.j1939
     ST = j.ControllerApplication.State
-    obs = dict(contested_addresses=0, cannot_claim_checked=0, reclaims_checked=0, zero_latency_cases=1 if zero else 0, claim_frames=0)
+    obs = dict(contested_addresses=0, cannot_claim_checked=0, reclaims_checked=0, zero_latency_cases=1 if zero else 0, claim_frames=0, preempted_cases=1 if pre else 0, preemption_holds=holds[0])
     M.m_live(viol, W, layer)
     tag = dict(layer=layer, lat=case['lat'])
     # claims seen on the bus: address -> set of CA indices; cannot-claim frames per CA
@@ -170,7 +196,9 @@ def run_case(case):
                 if state[i] != ST.CANNOT_CLAIM:
                     viol.add('loser_state', 'N%d (not arbitrary-address-capable) lost address %d to N%d but ended %r at %r' % (i, a, best, state[i], addr[i]), aac=0, **tag)
                 t_loss = min(who[best])
-                if not [t for t in cannot.get(i, []) if t >= min(who[i]) - 1e-9]:
+                # (pre-empted cases: the CA's own claim frame may reach the bus after the loss it caused -- the job thread was held inside the
+                #  send of the claim, the state having been entered before the send -- so the announcement may precede it)
+                if not [t for t in cannot.get(i, []) if pre or t >= min(who[i]) - 1e-9]:
                     viol.add('cannot_claim_missing', 'N%d lost address %d but never announced cannot-claim from the null address' % (i, a), **tag)
             else:
                 obs['reclaims_checked'] += 1
